@@ -73,6 +73,102 @@ fn alias(native: bool, split: u8, opk: u8, victim_side: Side) -> impl Fn() {
     }
 }
 
+/// "Queries never change any state": every query of all five contracts (with existing and
+/// non-existing subjects) on a staged deployment; raw storage of every contract and all balances
+/// must be bytewise identical afterwards
+fn queries_change_nothing(native: bool) -> impl Fn() {
+    move || {
+        use serde_json::{json, Value};
+        let mut cfg = Cfg::base(native, if native { 6 } else { 9 });
+        cfg.real_feed = true;
+        let d = cfg.d();
+        cfg.init_ratio = Uint128::new(d / 10);
+        cfg.toll = Uint128::new(d / 100);
+        cfg.spread = Uint128::new(d / 100);
+        let mut r = Run::new(cfg, Mon::none());
+        symrt::set_full(false);
+        let lev = Uint128::new(2 * d);
+        let m = Uint128::new(60 * d);
+        let f = if native { Some(native_open_funds(&r.w, m, lev)) } else { None };
+        assert!(r.step(Op::Open { who: ALICE, side: Side::Buy, margin: m, lev, limit: Uint128::zero(), funds: f }).tx.ok);
+        r.w.next_block(15);
+        let mb = Uint128::new(20 * d);
+        let f = if native { Some(native_open_funds(&r.w, mb, lev)) } else { None };
+        assert!(r.step(Op::Open { who: BOB, side: Side::Sell, margin: mb, lev, limit: Uint128::zero(), funds: f }).tx.ok);
+        r.w.next_block(86_400);
+        let now = r.w.now();
+        r.w.set_oracle(Uint128::new(9 * d), now);
+        r.step(Op::PayFunding { by: EVE });
+        r.w.next_block(900);
+        symrt::set_full(true);
+        let dump0 = r.w.dump();
+        let bal0 = r.w.balances();
+        let (v0, e, ins, fp, feed) = (r.w.vamms[0].clone(), r.w.engine.clone(), r.w.ins.clone(), r.w.feepool.clone(), r.w.feed.clone());
+        let vs = v0.to_string();
+        let amt = crate::sx::var("q", 0, 400 * d, 3 * d).to_string();
+        let mut n_ok = 0;
+        let mut n_err = 0;
+        let mut ask = |w: &World, to: &cosmwasm_std::Addr, q: Value| {
+            match w.q_raw(to, serde_json::to_vec(&q).unwrap()) {
+                Ok(_) => n_ok += 1,
+                Err(_) => n_err += 1,
+            }
+        };
+        for trader in [ALICE, BOB, CAROL, "nobody"] {
+            for q in [
+                json!({"position": {"vamm": vs, "trader": trader}}),
+                json!({"all_positions": {"trader": trader}}),
+                json!({"unrealized_pnl": {"vamm": vs, "trader": trader, "calc_option": "spot_price"}}),
+                json!({"unrealized_pnl": {"vamm": vs, "trader": trader, "calc_option": "twap"}}),
+                json!({"unrealized_pnl": {"vamm": vs, "trader": trader, "calc_option": "oracle"}}),
+                json!({"margin_ratio": {"vamm": vs, "trader": trader}}),
+                json!({"free_collateral": {"vamm": vs, "trader": trader}}),
+                json!({"balance_with_funding_payment": {"trader": trader}}),
+                json!({"position_with_funding_payment": {"vamm": vs, "trader": trader}}),
+                json!({"is_whitelisted": {"address": trader}}),
+            ] {
+                ask(&r.w, &e, q);
+            }
+        }
+        for q in [json!({"config": {}}), json!({"state": {}}), json!({"get_pauser": {}}), json!({"get_whitelist": {}}), json!({"cumulative_premium_fraction": {"vamm": vs}}), json!({"cumulative_premium_fraction": {"vamm": "nobody"}})] {
+            ask(&r.w, &e, q);
+        }
+        for dir in ["add_to_amm", "remove_from_amm"] {
+            for q in [
+                json!({"input_price": {"direction": dir, "amount": amt}}),
+                json!({"output_price": {"direction": dir, "amount": amt}}),
+                json!({"input_amount": {"direction": dir, "amount": amt}}),
+                json!({"output_amount": {"direction": dir, "amount": amt}}),
+                json!({"input_twap": {"direction": dir, "amount": amt}}),
+                json!({"output_twap": {"direction": dir, "amount": amt}}),
+                json!({"is_over_fluctuation_limit": {"direction": dir, "base_asset_amount": amt}}),
+            ] {
+                ask(&r.w, &v0, q);
+            }
+        }
+        for q in [
+            json!({"config": {}}), json!({"state": {}}), json!({"get_owner": {}}), json!({"spot_price": {}}), json!({"twap_price": {"interval": 900}}), json!({"twap_price": {"interval": 1_000_000}}),
+            json!({"underlying_price": {}}), json!({"underlying_twap_price": {"interval": 900}}), json!({"calc_fee": {"quote_asset_amount": amt}}), json!({"is_over_spread_limit": {}}),
+        ] {
+            ask(&r.w, &v0, q);
+        }
+        for q in [json!({"config": {}}), json!({"get_owner": {}}), json!({"is_vamm": {"vamm": vs}}), json!({"is_vamm": {"vamm": "nobody"}}), json!({"get_all_vamm": {}}), json!({"get_all_vamm_status": {}}), json!({"get_vamm_status": {"vamm": vs}})] {
+            ask(&r.w, &ins, q);
+        }
+        for q in [json!({"config": {}}), json!({"get_owner": {}}), json!({"is_token": {"token": DENOM}}), json!({"get_token_length": {}}), json!({"get_token_list": {}})] {
+            ask(&r.w, &fp, q);
+        }
+        for q in [json!({"config": {}}), json!({"get_owner": {}}), json!({"get_price": {"key": "USD"}}), json!({"get_previous_price": {"key": "USD", "num_round_back": "1"}}), json!({"get_twap_price": {"key": "USD", "interval": 900}}), json!({"get_price": {"key": "XYZ"}})] {
+            ask(&r.w, &feed, q);
+        }
+        symrt::log_event(format!("queries answered={} refused={}", n_ok, n_err));
+        let what = format!("{} queries answered, {} refused", n_ok, n_err);
+        symrt::prove_d("C10/queries-were-exercised", crate::sx::Cond::from_bool(n_ok >= 60), what.clone());
+        symrt::prove_d("C10/queries-change-no-storage", crate::sx::Cond::from_bool(dump0 == r.w.dump()), what.clone());
+        mon::balances_unchanged("C10/queries-change-no-balance", &bal0, &r.w.balances(), &what);
+    }
+}
+
 pub fn scenarios(_seed: u64) -> Vec<Scenario> {
     let mut v = vec![];
     let d = "position keys are a hash of vamm ++ trader: an account whose address is a suffix of the victim's sends each engine message with the crafted vamm string that aliases the victim's slot; every stored position must be unchanged";
@@ -84,6 +180,9 @@ pub fn scenarios(_seed: u64) -> Vec<Scenario> {
                 v.push(sc("C10", tier, &format!("c10.alias.{}.split{}.{}", on, split, cn), d, 100, 60, alias(native, split, opk as u8, if opk % 2 == 0 { Side::Buy } else { Side::Sell })));
             }
         }
+    }
+    for (native, cn) in [(false, "cw20"), (true, "native")] {
+        v.push(sc("C10", Tier::Quick, &format!("c10.queries.{}", cn), "every query of all five contracts on a staged deployment (positions, a funding settlement, fees): raw storage and balances bytewise identical afterwards", 50, 60, queries_change_nothing(native)));
     }
     v
 }
